@@ -211,9 +211,17 @@ func runC06(r *Run) {
 		if (r.Thorough() && i == 7) || (os.Getenv("VERIF_C06_STALL") != "" && i == 1) { // once: a client that stops reading for 11 s while the host streams
 			c06Stall, downTotal, kind = 11*time.Second, 4<<20, "legacy"
 		}
+		// a host that reads slowly while the client sends a lot and closes the channel right away: what
+		// was accepted from the client still has to reach the host in full
+		listeners[0].slow = i%7 == 3
+		if listeners[0].slow {
+			upTotal, downTotal = 1<<20, 0
+		}
 		up := randBytes(upTotal)
 		down := randBytes(downTotal)
 		res := relayOnce(kind, gws, listeners[0], port, up, down, rng)
+		slowHost := listeners[0].slow
+		listeners[0].slow = false
 		stalled := c06Stall
 		c06BigSegs, c06Stall = false, 0
 		if res.inconclusive != "" {
@@ -223,8 +231,8 @@ func runC06(r *Run) {
 		}
 		r.Count(fmt.Sprintf("api:%s:%d:%d:%d", kind, upTotal, downTotal, i))
 		r.Dist("api:" + kind)
-		rep := fmt.Sprintf("transport=%s client→host %d bytes in %d DATA packets over %d transport writes, host→client %d bytes; large transport messages=%v; client stalled for %v\nhost received %d bytes (first difference at %d)\nclient received %d payload bytes in DATA packets (first difference at %d)\n",
-			kind, len(up), res.upPkts, res.upSegs, len(down), i%5 == 4, stalled, len(res.hostGot), firstDiff(res.hostGot, up), len(res.clientGot), firstDiff(res.clientGot, down))
+		rep := fmt.Sprintf("transport=%s client→host %d bytes in %d DATA packets over %d transport writes, host→client %d bytes; large transport messages=%v; client stalled for %v; slow host=%v\nhost received %d bytes (first difference at %d)\nclient received %d payload bytes in DATA packets (first difference at %d)\n",
+			kind, len(up), res.upPkts, res.upSegs, len(down), i%5 == 4, stalled, slowHost, len(res.hostGot), firstDiff(res.hostGot, up), len(res.clientGot), firstDiff(res.clientGot, down))
 		if res.malformed != "" {
 			r.Violation("c06-api-malformed", "a DATA packet sent to the client is not well-formed: "+res.malformed, rep)
 			continue
@@ -404,7 +412,7 @@ func relayOnce(kind string, g *gwServer, host *hostListener, port int, up, down 
 	cl.close()
 	select {
 	case <-hc.done:
-	case <-time.After(5 * time.Second):
+	case <-time.After(30 * time.Second): // a slow host takes its time; end of stream is what ends the wait
 	}
 	res.hostGot = hc.received()
 	return res
